@@ -32,7 +32,7 @@ func init() {
 
 func runC03(c *Ctx) {
 	r := c.R
-	r.Rule("R03-balance", "in every function outside the board package that pushes moves, on every control path the pushes that succeeded are popped again: depth 0 at each return, consistent at joins, exactly 1 at each child search", 4)
+	r.Rule("R03-balance", "in every function outside the board package that pushes moves, on every control path the pushes that succeeded are popped again: depth 0 at each return, consistent at joins, exactly 1 at each child search; a take-back is the exact inverse of the push, the game result included", 4+18)
 	r.Rule("R03-negamax", "the recursive call searches depth-1 with (Negate(beta), Negate(current alpha)); the child's score reaches comparisons only as Negate(IncrementMateDistance(child)); alpha is replaced only by such a score under alpha.Less(score) (or Max); the cut-off test is alpha == beta or beta.Less(alpha); the PV is move :: child PV under the same guard; the move loop is left early only on that cut-off or on cancellation", 3)
 	r.Rule("R03-terminal", "the mate/stalemate verdict is returned exactly on paths where no push succeeded, -inf iff checkmate else zero; a drawn node returns zero before anything else; no node returns on a cut-off before a move was tried or the verdict produced", 5)
 	r.Rule("R03-order", "move ordering is a permutation: NewMoveList copies each input move once, Next pops until empty, the heap never grows, priorities only read the move", 4)
@@ -42,6 +42,13 @@ func runC03(c *Ctx) {
 		return
 	}
 	c.guard("R03-balance", func() { c03Balance(c, m) })
+	// the board is handed back in the game state it was received in only if a balanced push/pop is the
+	// identity on what the board reports: PopMove is the exact inverse of PushMove (rule of C08, re-decided here)
+	c.guard("R03-balance", func() {
+		if g := newGameModel(c, "R03-balance"); g != nil {
+			r.WithAlias("R08-inverse", "R03-balance", func() { c08Inverse(c, g) })
+		}
+	})
 	c.guard("R03-negamax", func() { c03Paths(c, m) })
 	c.guard("R03-order", func() { c03Order(c) })
 	// negamax is only minimax if scores are totally ordered, negation reverses the order and the
